@@ -403,6 +403,10 @@ def codec_decls():
                f"pub fn test() -> Result<(), String> {{\n    for seed in 0..8u64 {{\n        let a: {inst} = Mk::mk(seed);\n        let b: {inst} = Mk::mk(seed * 7 + 1 + (seed % 3));\n"
                "        let d = a.diff(&b);\n        let check = |r: &" + inst + "| -> Result<(), String> {\n" + checks + "            Ok(())\n        };\n        check(&a.clone().apply(d.clone()))?;\n"
                "        let dr: Vec<_> = a.diff_ref(&b).into_iter().map(Into::into).collect();\n        check(&a.clone().apply(dr)).map_err(|m| format!(\"via diff_ref: {}\", m))?;\n"
+               "        #[cfg(feature = \"ns\")] {\n            let bytes = nanoserde::SerBin::serialize_bin(&a.diff(&b));\n            let back: Vec<<" + inst + " as StructDiff>::Diff> = nanoserde::DeBin::deserialize_bin(&bytes).map_err(|e| format!(\"nanoserde owned: {:?}\", e))?;\n            check(&a.clone().apply(back)).map_err(|m| format!(\"via nanoserde (owned): {}\", m))?;\n"
+               "            let bytes = nanoserde::SerBin::serialize_bin(&a.diff_ref(&b));\n            let back: Vec<<" + inst + " as StructDiff>::Diff> = nanoserde::DeBin::deserialize_bin(&bytes).map_err(|e| format!(\"nanoserde borrowed: {:?}\", e))?;\n            check(&a.clone().apply(back)).map_err(|m| format!(\"via nanoserde (borrowed): {}\", m))?;\n        }\n"
+               "        #[cfg(feature = \"sd\")] {\n            let bytes = bincode::serialize(&a.diff(&b)).map_err(|e| format!(\"bincode: {:?}\", e))?;\n            let back: Vec<<" + inst + " as StructDiff>::Diff> = bincode::deserialize(&bytes).map_err(|e| format!(\"bincode owned: {:?}\", e))?;\n            check(&a.clone().apply(back)).map_err(|m| format!(\"via bincode (owned): {}\", m))?;\n"
+               "            let bytes = bincode::serialize(&a.diff_ref(&b)).map_err(|e| format!(\"bincode: {:?}\", e))?;\n            let back: Vec<<" + inst + " as StructDiff>::Diff> = bincode::deserialize(&bytes).map_err(|e| format!(\"bincode borrowed: {:?}\", e))?;\n            check(&a.clone().apply(back)).map_err(|m| format!(\"via bincode (borrowed): {}\", m))?;\n        }\n"
                "        if !a.diff(&a).is_empty() { return Err(format!(\"a.diff(&a) is not empty\")); }\n    }\n    Ok(())\n}\n")
         out.append((name, src, ['codec_generic']))
     decl('K0', "pub struct K0<T: Clone + PartialEq + std::fmt::Debug, U: Clone + PartialEq + std::fmt::Debug + 'static = i64>", "K0<i64, String>",
